@@ -420,6 +420,7 @@ def oracles(lines):
                 return
             i = int(m.group(1))
             a, g = int(w[1]), int(w[2])
+            last_cap.pop(a, None)   # the call may have grown the queue: a capacity read before it says nothing about a later shrink
             lvl = 9 if op == "LB" else 4 if op == "LN" else int(w[3])
             if op == "LB":
                 backtrace_used = True
